@@ -1694,6 +1694,147 @@ def task_f0(ctx, n, sweep=True):
     ctx.search("f0", strat, lambda c, v: check_f0(c, v), n)
 
 
+# ----------------------------------------------------------------------
+# x-ray handles that travel between interpreters (a worker pool under the spawn start method, a saved work list):
+# atom.xray and its bound methods are pickled in one fresh interpreter and used in another one, in which nothing, the
+# parent elements' tables, or the very same atoms' tables were touched first.  What they answer there is what the atom
+# answers when asked directly in this process (which the other tasks judge against the tables), and f0(0) = Z - charge.
+XPROC_PRODUCER = r"""
+import pickle, sys, json
+import periodictable as pt
+specs = json.loads(sys.argv[1])
+def atom(s):
+    el = pt.elements.symbol(s[0])
+    a = el[s[1]] if s[1] else el
+    return a.ion[s[2]] if s[2] else a
+hs = [atom(s).xray for s in specs]
+sys.stdout.buffer.write(pickle.dumps({"handles": hs, "f0": [h.f0 for h in hs], "sf": [h.scattering_factors for h in hs]}, %d))
+"""
+XPROC_CONSUMER = r"""
+import pickle, sys, json
+import numpy as np
+import periodictable as pt
+specs, first, blobfile = json.loads(sys.argv[1]), sys.argv[2], sys.argv[3]
+def atom(s):
+    el = pt.elements.symbol(s[0])
+    a = el[s[1]] if s[1] else el
+    return a.ion[s[2]] if s[2] else a
+if first == "elements":
+    for s in specs:
+        pt.elements.symbol(s[0]).xray.scattering_factors(energy=8.0)
+elif first == "same-atoms":
+    for s in specs:
+        try:
+            atom(s).xray.f0(0.5)
+        except KeyError:
+            pass            # no coefficient set for this ion
+elif first == "compound":
+    pt.xray_sld("Fe2O3", density=5.24, energy=8.0)
+    pt.xray_sld("CaCl2UO2", density=2.15, energy=8.0)
+d = pickle.load(open(blobfile, "rb"))
+Q = [0.0, 1e-4, 1.5, 9.0]
+def num(x):
+    return [None if (v != v) else float(v) for v in np.asarray(x, float).reshape(-1)]
+out = []
+for h, f0, sf in zip(d["handles"], d["f0"], d["sf"]):
+    row = {}
+    for k, fn in (("handle.f0", lambda: h.f0(np.array(Q))), ("bound-f0", lambda: f0(np.array(Q))),
+                  ("handle.f0-scalar", lambda: [h.f0(q) for q in Q]),
+                  ("handle.sf", lambda: h.scattering_factors(energy=np.array([2.0, 8.0]))),
+                  ("bound-sf", lambda: sf(energy=np.array([2.0, 8.0])))):
+        try:
+            row[k] = num(fn())
+        except Exception as e:
+            row[k] = "raised %s: %s" % (type(e).__name__, str(e)[:80])
+    out.append(row)
+print(json.dumps(out))
+"""
+
+
+def task_xproc(ctx, protocols=(2, 5)):
+    import json
+    import os
+    import subprocess
+    import tempfile
+    import numpy as np
+    import periodictable as pt
+    from ..runner import REPO
+    specs = []
+    for sym in ("H", "O", "Fe", "Ca", "Cl", "U", "Mn", "Na", "Ce", "Si"):
+        el = pt.elements.symbol(sym)
+        specs.append([sym, 0, 0])
+        specs += [[sym, 0, c] for c in el.ions if abs(c) <= 4]
+    specs += [["D", 0, 0], ["D", 0, 1], ["T", 0, 1], ["Fe", 56, 0], ["Fe", 56, 2], ["O", 18, -2], ["H", 1, 1], ["H", 2, -1]]
+    env = dict(os.environ, PYTHONPATH=REPO, PYTHONDONTWRITEBYTECODE="1")
+    env.pop("PERIODICTABLE_DATA", None)
+    Q = [0.0, 1e-4, 1.5, 9.0]
+
+    def atom(s):
+        el = pt.elements.symbol(s[0])
+        a = el[s[1]] if s[1] else el
+        return a.ion[s[2]] if s[2] else a
+    tmp = tempfile.mkdtemp(prefix="c05-xproc-")
+    try:
+        for proto in protocols:
+            r = subprocess.run([sys.executable, "-c", XPROC_PRODUCER % proto, json.dumps(specs)], env=env, capture_output=True, cwd=tmp)
+            if r.returncode != 0:
+                ctx.violation("c05:xproc:pickle-raises", "pickling atom.xray handles (protocol %d) in a fresh interpreter failed: %s"
+                              % (proto, r.stderr.decode()[-300:]), {"kind": "xproc", "protocol": proto})
+                continue
+            blob = os.path.join(tmp, "handles-%d.pickle" % proto)
+            with open(blob, "wb") as fh:
+                fh.write(r.stdout)
+            for first in ("nothing", "elements", "same-atoms", "compound"):
+                case = {"kind": "xproc", "protocol": proto, "first": first}
+                c = subprocess.run([sys.executable, "-c", XPROC_CONSUMER, json.dumps(specs), first, blob], env=env,
+                                   capture_output=True, cwd=tmp)
+                if c.returncode != 0:
+                    ctx.violation("c05:xproc:unpickle-raises", "using pickled atom.xray handles in another interpreter (%s touched "
+                                  "first) failed: %s" % (first, c.stderr.decode()[-300:]), case)
+                    continue
+                rows = json.loads(c.stdout.decode().strip().splitlines()[-1])
+                for s, row in zip(specs, rows):
+                    a = atom(s)
+                    ctx.case(("xproc", proto, first, tuple(s)), nontrivial=bool(s[2]), sample=dict(case, atom=s),
+                             cls=["xproc:first:" + first, "xproc:" + spec_class(s)])
+                    calls = {"handle.f0": lambda: a.xray.f0(np.array(Q)), "bound-f0": lambda: a.xray.f0(np.array(Q)),
+                             "handle.f0-scalar": lambda: [a.xray.f0(q) for q in Q],
+                             "handle.sf": lambda: a.xray.scattering_factors(energy=np.array([2.0, 8.0])),
+                             "bound-sf": lambda: a.xray.scattering_factors(energy=np.array([2.0, 8.0]))}
+                    want = {}
+                    for k, fn in calls.items():
+                        try:
+                            with np.errstate(all="ignore"):
+                                want[k] = fn()
+                        except Exception:  # noqa  (no coefficient set for this ion: the direct call raises as well)
+                            want[k] = None
+                    for k, w in want.items():
+                        g = row[k]
+                        if w is None:
+                            if not isinstance(g, str):
+                                ctx.violation("c05:xproc:raises-directly", "%s of %r raises when asked directly but a pickled handle "
+                                              "used in another interpreter (%s touched first) answers %r" % (k, s, first, g), dict(case, atom=s))
+                                break
+                            continue
+                        w = [None if (x != x) else float(x) for x in np.asarray(w, float).reshape(-1)]
+                        ok = isinstance(g, list) and len(g) == len(w) and all(
+                            (x is None and y is None) or (x is not None and y is not None and abs(x - y) <= 1e-12 * max(abs(x), abs(y), 1e-300))
+                            for x, y in zip(g, w))
+                        if not ok:
+                            ctx.violation("c05:xproc:%s:%s" % (k.split(".")[-1].split("-")[0], "ion" if s[2] else "atom"),
+                                          "%s of %r pickled (protocol %d) in one interpreter and used in another (%s touched first "
+                                          "there) gives %r; asked directly it gives %r" % (k, s, proto, first, g, w), dict(case, atom=s))
+                            break
+                    # independent of the library: the electron count at Q = 0
+                    g0 = row["handle.f0"]
+                    if isinstance(g0, list) and g0[0] is not None and abs(g0[0] - (a.number - s[2])) > 0.06:
+                        ctx.violation("c05:xproc:f0-at-0", "f0(0) of %r through a pickled handle (%s touched first) is %r, Z - charge = %d"
+                                      % (s, first, g0[0], a.number - s[2]), dict(case, atom=s))
+    finally:
+        import shutil
+        shutil.rmtree(tmp, ignore_errors=True)
+
+
 def tasks(tier):
     from .. import depth
     return _tasks(tier) + [("little-stack", depth.task, dict(prop=PROPERTY))]
@@ -1713,6 +1854,7 @@ def _tasks(tier):
                 ("unusual", task_unusual, dict(n=400))]
         out += [("compounds-%d" % k, task_compounds, dict(n=334, depth=k % 3)) for k in range(3)]
         out.append(("routes", task_routes, dict(n=300)))
+        out.append(("cross-interpreter-pickle", task_xproc, dict(protocols=(2,))))
         return [(nm, with_table_check(nm, fn), kw) for nm, fn, kw in out]
     for k in range(4):
         out.append(("factors-%d" % k, task_factors, dict(n=40000)))
@@ -1729,10 +1871,13 @@ def _tasks(tier):
     out.append(("unusual-1", task_unusual, dict(n=6000)))
     out.append(("plot-0", task_plot, dict(n=3000)))
     out.append(("plot-1", task_plot, dict(n=3000)))
+    out.append(("cross-interpreter-pickle", task_xproc, dict(protocols=(0, 2, 5))))
     return [(nm, with_table_check(nm, fn), kw) for nm, fn, kw in out]
 
 
 def replay(ctx, case):
+    if isinstance(case, dict) and case.get("kind") == "xproc":
+        return task_xproc(ctx, protocols=(case.get("protocol", 2),))
     if isinstance(case, dict) and case.get("kind") == "little-stack":
         from .. import depth
         return depth.check(ctx, case)
